@@ -6,8 +6,11 @@ level-0 / level-1 parts, tagValuesLookup keyed by Rewrite(), seriesFiltering, gr
 Reference semantics (DESIGN.md §7 C10): `Expr.eval`, `likeRef`, `groupValuesOK`.
 Code facts regenerated from /repo: LinVerif/Generated/C10.lean, tied below (`tie_*`).
 
-The four `Flags` are parameters of every theorem; the hypotheses name the regions in which the
-CURRENT code violates the property (each with a proved witness under `Neg`):
+The `Flags` are parameters of every general theorem; the hypotheses name the regions in which the
+code AS IT WAS violated the property (each with a proved witness under `Neg`). The four defects are
+repaired in /repo (fix commits e59def4, 5b9f71c, 08141b9, 47ae252): `flagsNow_repaired` reads the
+repaired values off the regenerated facts and the `*_now` theorems restate every property theorem for
+the current source WITHOUT these hypotheses. A reverted fix flips a fact and breaks `flagsNow_repaired`.
   * `NoCollision F c`          — two different atomic filters with the same Rewrite() string,
   * `firstErr … = none`        — includes: no `like '*'` while `likeStarGuarded = false` (slice panic),
   * `rxLitPrefix → PrefixSound`— regexp literal prefix used as trie-iterator prefix for unanchored regexps,
@@ -240,6 +243,114 @@ theorem groupby_state_invariance (F : Flags) (ops1 ops2 : List Op)
     subst this
     exact groupValuesOK_unique (hwf1.writtenNodup _ _ _ ht1) keys v1 v2 hok1 hok2
 
+/-! ## The current source: full strength
+
+The regenerated facts say that the result map is keyed injectively, `like '*'` is guarded, the
+regexp iterator starts at the trie root and the forward reader's table is cumulative; with them the
+four hypotheses are discharged. -/
+
+/-- the repaired values of the four facts, read off /repo's current source -/
+theorem flagsNow_repaired :
+    flagsNow.keyByRewrite = false ∧ flagsNow.likeStarGuarded = true ∧ flagsNow.rxLitPrefix = false ∧
+    flagsNow.lutCumulative = true := by decide
+
+theorem noCollision_now (c : Expr) : NoCollision flagsNow c :=
+  noCollision_of_injective flagsNow_repaired.1 c
+
+theorem prefix_now (M : Matcher) : flagsNow.rxLitPrefix = true → M.PrefixSound := by
+  intro h; rw [flagsNow_repaired.2.2.1] at h; cases h
+
+/-- no atomic filter panics any more; the only errors left are an unknown key and an invalid regexp -/
+theorem atomError_now (M : Matcher) (a : Atom) :
+    atomError flagsNow M a = none ∨ atomError flagsNow M a = some .badRegexp := by
+  cases a with
+  | eq k v => exact Or.inl rfl
+  | inn k vs => exact Or.inl rfl
+  | like k p => left; simp [atomError, flagsNow_repaired.2.1]
+  | rx k p =>
+    simp only [atomError]
+    by_cases hv : M.valid p = true
+    · left; simp [hv]
+    · right; simp [hv]
+
+/-- **write_path_establishes_wf, current source:** every history, any number of series. -/
+theorem write_path_establishes_wf_now (ops : List Op) (hv : ValidOps ops) :
+    WF (run flagsNow ops State.init) ∧ LutSafe flagsNow (run flagsNow ops State.init) :=
+  write_path_establishes_wf flagsNow ops hv (Or.inl flagsNow_repaired.2.2.2)
+
+/-- **filter_eq_eval, current source:** every matcher, every well-formed state, every condition of
+the grammar's shape — no further hypothesis. -/
+theorem filter_eq_eval_now (M : Matcher) (st : State) (hwf : WF st) (m : Metric) (c : Expr)
+    (hshape : c.shaped = true) {S : List SeriesId} (h : query flagsNow M st m c = .ok S) :
+    ∀ s, s ∈ S ↔ ∃ t, (m, s, t) ∈ st.written ∧ c.eval M t = true :=
+  filter_eq_eval flagsNow M st hwf m c hshape (noCollision_now c) (prefix_now M) h
+
+/-- **query_total, current source.** -/
+theorem query_total_now (M : Matcher) (st : State) (hwf : WF st) (m : Metric) (c : Expr) (hshape : c.shaped = true) :
+    (metricKnown st m = false → query flagsNow M st m c = .error .metricNotFound) ∧
+    (metricKnown st m = true → ∀ e, firstErr flagsNow M st.schema m c.atoms = some e → query flagsNow M st m c = .error e) ∧
+    (metricKnown st m = true → firstErr flagsNow M st.schema m c.atoms = none → ∃ S, query flagsNow M st m c = .ok S) :=
+  query_total flagsNow M st hwf m c hshape (noCollision_now c) (prefix_now M)
+
+/-- **index_state_invariance, current source:** two histories with the same writes — `Step`s of the
+metadata and index stores placed anywhere, INCLUDING the steps inside an index flush (file being
+written, file committed with the immutable table still set, immutable table dropped, or the flush
+failed and is retried later) — answer every query of the grammar's shape alike. -/
+theorem index_state_invariance_now (M : Matcher) (ops1 ops2 : List Op) (hw : writesOf ops1 = writesOf ops2)
+    (hv : ValidOps ops1) (m : Metric) (c : Expr) (hshape : c.shaped = true) :
+    match query flagsNow M (run flagsNow ops1 State.init) m c, query flagsNow M (run flagsNow ops2 State.init) m c with
+    | .ok S1, .ok S2 => ∀ s, s ∈ S1 ↔ s ∈ S2
+    | .error e1, .error e2 => e1 = e2
+    | _, _ => False :=
+  index_state_invariance flagsNow M ops1 ops2 hw hv (Or.inl flagsNow_repaired.2.2.2) m c hshape
+    (noCollision_now c) (prefix_now M)
+
+/-- **groupby_values, current source**, on every reachable state. -/
+theorem groupby_values_now (ops : List Op) (hv : ValidOps ops) (m : Metric) (keys : List Bytes) (sel : List SeriesId)
+    (hsel : ∀ s ∈ sel, ∃ t, (m, s, t) ∈ (run flagsNow ops State.init).written)
+    {gs : List (SeriesId × List (ValId × Option Bytes))}
+    (h : groupBy flagsNow (run flagsNow ops State.init) m keys sel = .ok gs) :
+    (∀ s vals, (s, vals) ∈ gs → s ∈ sel ∧ ∃ t, (m, s, t) ∈ (run flagsNow ops State.init).written ∧ groupValuesOK t keys vals) ∧
+    (∀ s ∈ sel, ∀ t, (m, s, t) ∈ (run flagsNow ops State.init).written → (∀ k ∈ keys, ∃ v, (k, v) ∈ t) →
+      ∃ vals, (s, vals) ∈ gs) :=
+  groupby_values flagsNow _ (write_path_establishes_wf_now ops hv).1 (write_path_establishes_wf_now ops hv).2
+    m keys sel hsel h
+
+/-- **groupby_state_invariance, current source.** -/
+theorem groupby_state_invariance_now (ops1 ops2 : List Op) (hw : writesOf ops1 = writesOf ops2) (hv : ValidOps ops1)
+    (m : Metric) (keys : List Bytes) (sel : List SeriesId)
+    (hsel : ∀ s ∈ sel, ∃ t, (m, s, t) ∈ (run flagsNow ops1 State.init).written)
+    {gs1 gs2 : List (SeriesId × List (ValId × Option Bytes))}
+    (h1 : groupBy flagsNow (run flagsNow ops1 State.init) m keys sel = .ok gs1)
+    (h2 : groupBy flagsNow (run flagsNow ops2 State.init) m keys sel = .ok gs2) :
+    (∀ s, (∃ v, (s, v) ∈ gs1) ↔ (∃ v, (s, v) ∈ gs2)) ∧
+    (∀ s v1 v2, (s, v1) ∈ gs1 → (s, v2) ∈ gs2 → v1.map (·.2) = v2.map (·.2)) :=
+  groupby_state_invariance flagsNow ops1 ops2 hw hv (Or.inl flagsNow_repaired.2.2.2) m keys sel hsel h1 h2
+
+/-! ## The index flush seen from inside -/
+
+/-- the one-step flush of the index stores is the composition of its steps (nobody looking) -/
+theorem flush_is_its_steps (F : Flags) (st : State) (hi : st.inv.phase = .idle) (hf : st.fwd.phase = .idle) :
+    st.step F .flushIndex =
+      run F [.place .fwdWrite, .place .fwdCommit, .place .fwdDrop, .place .invWrite, .place .invCommit, .place .invDrop] st := by
+  have e1 : st.fwd.flush = ((st.fwd.flushWrite).flushCommit).flushDrop := by
+    unfold Fwd.flush Fwd.flushNow Fwd.flushWrite
+    cases him : st.fwd.imm with
+    | none => simp [hf, him, Fwd.flushCommit, Fwd.flushDrop]
+    | some p =>
+      cases p with
+      | nil => simp [hf, him, Fwd.flushCommit, Fwd.flushDrop]
+      | cons x t => simp [hf, him, Fwd.flushCommit, Fwd.flushDrop]
+  have e2 : st.inv.flush = ((st.inv.flushWrite).flushCommit).flushDrop := by
+    unfold Inv.flush Inv.flushNow Inv.flushWrite
+    cases him : st.inv.imm with
+    | none => simp [hi, him, Inv.flushCommit, Inv.flushDrop]
+    | some p =>
+      cases p with
+      | nil => simp [hi, him, Inv.flushCommit, Inv.flushDrop]
+      | cons x t => simp [hi, him, Inv.flushCommit, Inv.flushDrop]
+  simp only [run, List.foldl_cons, List.foldl_nil, applyOp, State.step, e1, e2]
+
 /-! ## Ties to the regenerated facts -/
 
 /-- the two operators dispatch on exactly the expression kinds of `Expr` (atom / paren / not / binary) -/
@@ -303,6 +414,29 @@ theorem tie_prepare_flush :
         "ii.immutable == nil || ii.immutable.IsEmpty()", "fi.immutable == nil || fi.immutable.IsEmpty()"] ∧
       Generated.C10.prepareOnEmpty = true) := by decide
 
+/-- the step order of `invertedIndex.flush` / `forwardIndex.flush` that `Inv.flushWrite` →
+`flushCommit` → `flushDrop` follow: `immutable = nil` is the only write to `immutable` in the function,
+under the lock, AFTER `flusher.Close()` returned without error; no other function of the stores
+assigns `immutable` (besides `prepareFlush`). The dictionary's `Flush` swaps its snapshot and clears
+`immutable` under one lock after `flusher.Close()`. -/
+theorem tie_flush_order :
+    Generated.C10.invFlushEvents =
+      ["call:ii.needFlush", "return:nil", "call:family.NewFlusher", "call:kvFlusher.Release",
+       "call:newInvertedIndexFlusher", "return:err", "call:immutable.WalkEntry", "func-literal", "return:err",
+       "call:flusher.Close", "return:err", "call:lock.Lock", "set:immutable=nil", "call:lock.Unlock", "return:nil"] ∧
+    Generated.C10.fwdFlushEvents =
+      ["call:fi.needFlush", "return:nil", "call:family.NewFlusher", "call:kvFlusher.Release",
+       "call:newForwardIndexFlusher", "return:err", "call:immutable.WalkEntry", "func-literal", "return:err",
+       "call:flusher.Close", "return:err", "call:lock.Lock", "set:immutable=nil", "call:lock.Unlock", "return:nil"] ∧
+    Generated.C10.dictFlushEvents =
+      ["call:s.needFlush", "return:nil", "call:family.NewFlusher", "call:kvFlusher.Release", "call:newIndexKVFlusher",
+       "return:err", "call:immutable.WalkEntry", "func-literal", "return:err", "call:flusher.Close", "return:err",
+       "call:lock.Lock", "call:lock.Unlock", "call:snapshot.Close", "call:family.GetSnapshot", "set:immutable=nil",
+       "call:bucketCache.Purge", "return:nil"] ∧
+    Generated.C10.immutableWriters =
+      ["forwardIndex.flush", "forwardIndex.prepareFlush", "indexKVStore.Flush", "indexKVStore.PrepareFlush",
+       "invertedIndex.flush", "invertedIndex.prepareFlush"] := by decide
+
 /-! ## Non-vacuity -/
 
 /-- Go's behaviour on literal patterns with an optional `^`: `^x` matches values starting with `x`
@@ -361,7 +495,23 @@ example (F : Flags) : NoCollision F (.or (.atom (.like kHost [97, 98, 42])) (.no
   simp [Expr.atoms] at ha hb
   rcases ha with rfl | rfl <;> rcases hb with rfl | rfl <;> first | rfl | (cases F; simp [sameKey, Atom.rewrite, kHost, kZone, sLike, chEq] at h; try (split at h <;> simp at h))
 
-/-! ## Proved violations of the current code (each replayed on the implementation on every run) -/
+/-- stopped INSIDE the index flush (forward file committed and its table dropped, inverted file
+committed but `immutable` not yet cleared) the query answers as before the flush; a flush that
+fails while the inverted file is written leaves the batch in the immutable table -/
+def insideFlushOps : List Op :=
+  [.write mCpu [(kHost, [97, 98, 99]), (kZone, [49])], .write mCpu [(kZone, [50])],
+   .place .prepareIndex, .write mCpu [(kHost, [97, 98]), (kZone, [49])],
+   .place .fwdWrite, .place .fwdCommit, .place .fwdDrop, .place .invWrite]
+
+example :
+    query flagsNow anchoredMatcher (run flagsNow (insideFlushOps ++ [.place .invCommit]) State.init) mCpu
+      (.not (.atom (.eq kZone [50]))) = .ok [2, 0] ∧
+    query flagsNow anchoredMatcher (run flagsNow (insideFlushOps ++ [.place .invFail]) State.init) mCpu
+      (.not (.atom (.eq kZone [50]))) = .ok [2, 0] ∧
+    (run flagsNow (insideFlushOps ++ [.place .invCommit]) State.init).inv.phase = .committed := by decide
+
+/-! ## Witnesses of the repaired defects (flags of the source before the fix commits; each is still
+replayed on the implementation on every run and must now PASS there) and of a wrong flush order -/
 
 namespace Neg
 
@@ -449,6 +599,23 @@ theorem lut_groupby_wrong_value :
     groupBy flags0 lutState mCpu [kHost] [131072] = .ok [(131072, [(11, some [98])])] ∧
     groupBy { flags0 with lutCumulative := true } lutState mCpu [kHost] [131072] = .ok [(131072, [(12, some [99])])] := by
   decide
+
+/-- the state in which `invertedIndex.flush` would be if it detached `immutable` at the START of the
+flush (before the file is committed) instead of after `flusher.Close()`: the batch is in no table and
+in no file -/
+def detachedEarly : State :=
+  let st := run flags0 [.write mCpu [(kHost, [97])], .place .prepareIndex, .place .invWrite] State.init
+  { st with inv := { st.inv with imm := none } }
+
+/-- **detach-before-commit.** With that order a query issued while the file is written — or after
+the flush failed — misses every series of the batch (`host = 'a'` selects nothing although series 0
+has it), whereas the current order answers `[0]` in the same phase. -/
+theorem detach_before_commit_loses_postings :
+    query flags0 anchoredMatcher detachedEarly mCpu (.atom (.eq kHost [97])) = .ok [] ∧
+    query flags0 anchoredMatcher
+      (run flags0 [.write mCpu [(kHost, [97])], .place .prepareIndex, .place .invWrite] State.init) mCpu
+      (.atom (.eq kHost [97])) = .ok [0] ∧
+    (Expr.atom (.eq kHost [97])).eval anchoredMatcher [(kHost, [97])] = true := by decide
 
 end Neg
 
